@@ -77,10 +77,11 @@ class Record(Dom):
     build: native function(**field_values) -> real object (used by replay).
     """
 
-    def __init__(self, cls, fields, build=None):
+    def __init__(self, cls, fields, build=None, closed=False):
         self.cls = cls
         self.fields = fields
         self.build = build
+        self.closed = closed      # a shared singleton: writing any attribute not listed here breaks the frame
 
 
 class Namespace(Dom):
